@@ -54,6 +54,14 @@ pub fn abscissa_lists(thorough: bool) -> Vec<Vec<f64>> {
             }
         }
     }
+    // joint extreme scalings: abscissae scaled by 2^-340 / 2^340 here, ordinates by 2^-760 / 2^700 in pick_ordinates
+    // (every quantity of the construction stays a normal number while products of an x-difference and a y-difference do not)
+    for n in 3..=5 {
+        for s in subsets(6, n) {
+            out.push(s.iter().map(|&i| BASE_EVEN[i] * 2f64.powi(-340)).collect());
+            out.push(s.iter().map(|&i| BASE_UNEVEN[i] * 2f64.powi(340)).collect());
+        }
+    }
     // long knot lists around size thresholds: unit spacing and an uneven repeating spacing pattern, three offsets / scalings
     for n in [8usize, 9, 12, 16, 17, 33, 65].into_iter().chain(if thorough { vec![10usize, 32, 64, 129, 257] } else { vec![] }) {
         let unit: Vec<f64> = (0..n).map(|i| i as f64).collect();
@@ -91,8 +99,15 @@ pub fn pick_ordinates(cx: &mut Cx, xs: &[f64]) -> (Vec<f64>, &'static str) {
         let scale = [1.0, 1e-3, 1e6, 8.673617379884035e-19][cx.choose(4)];
         return ((0..n).map(|i| long_pattern(p, i + shift, xs[i]) * scale).collect(), if p == 4 { "near-collinear" } else { "alphabet" });
     }
-    let fam = cx.choose(2);
-    let scale = [1.0, 1e-3, 1e6, 8.673617379884035e-19][cx.choose(4)];
+    let extreme = xs[n - 1].abs() < 1e-90 || xs[n - 1].abs() > 1e90;
+    let fam = if extreme { 0 } else { cx.choose(2) };
+    let scale = if xs[n - 1].abs() < 1e-90 {
+        2f64.powi(-760) // joint extreme scaling (tiny x with tinier y)
+    } else if xs[n - 1].abs() > 1e90 {
+        2f64.powi(700)
+    } else {
+        [1.0, 1e-3, 1e6, 8.673617379884035e-19][cx.choose(4)]
+    };
     if fam == 0 {
         ((0..n).map(|_| *cx.pick(&Y_ALPHA) * scale).collect(), "alphabet")
     } else {
